@@ -1,0 +1,158 @@
+//go:build verif
+
+// Package verifhook contains instrumentation points for runtime verification.
+// With the "verif" build tag it provides
+//   - a pool sanitizer: objects put back into a sync.Pool are tracked (a second put without
+//     an intervening get is a double recycle) and their buffers are poisoned, so that a
+//     use after recycle becomes visible as corrupted data, and
+//   - schedule points, at which a test harness can inject yields or delays.
+package verifhook
+
+import (
+	"fmt"
+	"runtime"
+	"sync"
+	"sync/atomic"
+)
+
+// Enabled reports whether the instrumentation is compiled in.
+const Enabled = true
+
+// PoisonByte is written over the whole capacity of a buffer when it is recycled.
+const PoisonByte = 0xDB
+
+// PoolViolation describes a misuse of one of the instrumented pools.
+type PoolViolation struct {
+	Kind  string
+	What  string
+	Stack string
+}
+
+var (
+	poolMx         sync.Mutex
+	inPool         = map[any]struct{}{}
+	poolViolations []PoolViolation
+	poolGets       atomic.Uint64
+	poolPuts       atomic.Uint64
+	poisonOn       atomic.Bool
+	trackOn        atomic.Bool
+)
+
+func init() {
+	poisonOn.Store(true)
+	trackOn.Store(true)
+}
+
+// SetPoolSanitizer switches tracking and poisoning on or off (both are on by default).
+func SetPoolSanitizer(track, poison bool) {
+	trackOn.Store(track)
+	poisonOn.Store(poison)
+}
+
+// PoolGet is called when obj has been taken out of the pool identified by kind.
+func PoolGet(kind string, obj any) {
+	poolGets.Add(1)
+	if !trackOn.Load() {
+		return
+	}
+	poolMx.Lock()
+	delete(inPool, obj)
+	poolMx.Unlock()
+}
+
+// PoolPut is called right before obj (whose backing buffer is buf) is put back into the pool identified by kind.
+func PoolPut(kind string, obj any, buf []byte) {
+	poolPuts.Add(1)
+	if trackOn.Load() {
+		poolMx.Lock()
+		if _, ok := inPool[obj]; ok {
+			st := make([]byte, 4096)
+			st = st[:runtime.Stack(st, false)]
+			poolViolations = append(poolViolations, PoolViolation{Kind: kind, What: "double recycle", Stack: string(st)})
+		}
+		inPool[obj] = struct{}{}
+		poolMx.Unlock()
+	}
+	if poisonOn.Load() {
+		buf = buf[:cap(buf)]
+		for i := range buf {
+			buf[i] = PoisonByte
+		}
+	}
+}
+
+// PoolStats returns the number of gets and puts seen so far.
+func PoolStats() (gets, puts uint64) { return poolGets.Load(), poolPuts.Load() }
+
+// TakePoolViolations returns and clears the violations recorded so far.
+func TakePoolViolations() []PoolViolation {
+	poolMx.Lock()
+	defer poolMx.Unlock()
+	v := poolViolations
+	poolViolations = nil
+	return v
+}
+
+// Action is what happens at a schedule point. It is called without any verifhook lock held.
+type Action func(name string)
+
+var (
+	pointMx   sync.RWMutex
+	actions   = map[string]Action{}
+	catchAll  Action
+	pointHits sync.Map // name -> *atomic.Uint64
+)
+
+// SetAction installs (or, with a nil action, removes) the action for the named point.
+// The name "*" installs an action for all points that have no action of their own.
+func SetAction(name string, a Action) {
+	pointMx.Lock()
+	defer pointMx.Unlock()
+	if name == "*" {
+		catchAll = a
+		return
+	}
+	if a == nil {
+		delete(actions, name)
+		return
+	}
+	actions[name] = a
+}
+
+// ClearActions removes all actions.
+func ClearActions() {
+	pointMx.Lock()
+	defer pointMx.Unlock()
+	actions = map[string]Action{}
+	catchAll = nil
+}
+
+// Point marks a schedule point between two critical sections.
+func Point(name string) {
+	c, ok := pointHits.Load(name)
+	if !ok {
+		c, _ = pointHits.LoadOrStore(name, new(atomic.Uint64))
+	}
+	c.(*atomic.Uint64).Add(1)
+	pointMx.RLock()
+	a := actions[name]
+	if a == nil {
+		a = catchAll
+	}
+	pointMx.RUnlock()
+	if a != nil {
+		a(name)
+	}
+}
+
+// Hits returns how often each point has been reached.
+func Hits() map[string]uint64 {
+	m := map[string]uint64{}
+	pointHits.Range(func(k, v any) bool {
+		m[k.(string)] = v.(*atomic.Uint64).Load()
+		return true
+	})
+	return m
+}
+
+func (v PoolViolation) String() string { return fmt.Sprintf("%s: %s\n%s", v.Kind, v.What, v.Stack) }
